@@ -123,10 +123,7 @@ def run(ck):
             R.check_field_bits(ck, it, read_path(it, env, dec, path), data_bits_be("data", off, w), fn, f"decoded {name} == bits {off}..{off + w - 1}")
         ver = binop("&", binop(">>", T("idx", data, C(0), ty="int"), C(5)), C(7))
         st, m = D.prove(env.facts, binop("==", ver, C(1)))
-        if st == "proved":
-            ck.proved("G-REFUSE", fn, "version != 001 is refused", "normal return implies version bits == 1")
-        else:
-            ck.refuted("G-REFUSE", fn, "version != 001 is refused", f"accepted ({m})")
+        ck.verdict3("G-REFUSE", fn, "version != 001 is refused", st, m, "normal return implies version bits == 1")
         ucv = P.cls(f"{CF.DEFS}.UnsupportedCfdpVersion").qual
         hit = [r for r in it.raises if r["kind"] == "explicit" and r["exc"] == ucv]
         ck.verdict("G-REFUSE", fn, "unsupported version raises UnsupportedCfdpVersion", [] if hit else ["no raise of UnsupportedCfdpVersion found"], "raise site present")
@@ -172,10 +169,7 @@ def run(ck):
             N = C(CF.header_len(E, S))
             R.check_lin_equal(ck, read_path(it, env, dec, "header_len"), Lin({}, CF.header_len(E, S)), fn, f"decoded header_len == 4+2E+S ({tag})")
             st, m = D.prove(env.facts, binop(">=", length(data), N))
-            if st == "proved":
-                ck.proved("G-REFUSE", fn, f"buffer shorter than the header is refused ({tag})", f"normal return implies len(data) >= {CF.header_len(E, S)}")
-            else:
-                ck.refuted("G-REFUSE", fn, f"buffer shorter than the header is refused ({tag})", f"accepted: {m}")
+            ck.verdict3("G-REFUSE", fn, f"buffer shorter than the header is refused ({tag})", st, m, f"normal return implies len(data) >= {CF.header_len(E, S)}")
             # the converse: the too-short refusal is taken only for buffers that really are shorter than this header
             for x in it.raises:
                 if x["caught"] or x["kind"] != "explicit" or not x["exc"].endswith("BytesTooShortError"):
